@@ -23,7 +23,7 @@ import pylife.materiallaws.woehlercurve  # noqa: registers the accessor
 NAME = "operands"
 
 PROPS = {
-    "C13": {"quick": {"runs": 9000, "budget_s": 75, "batch": 25, "det_pool": 16, "det_fresh": 6},
+    "C13": {"quick": {"runs": 9000, "budget_s": 55, "batch": 25, "det_pool": 16, "det_fresh": 6},
             "thorough": {"runs": 200000, "budget_s": 1100, "batch": 50, "det_pool": 150, "det_fresh": 30}},
 }
 
